@@ -374,7 +374,9 @@ func (e *explorer) run(maxStates int64, par int) *result {
 				res.replaySteps += steps
 				if ok {
 					res.replays++
-					res.sample = traceString(tr)
+					if ts := traceString(tr); len(ts) > len(res.sample) {
+						res.sample = ts
+					}
 					if w != sh.next[i].w {
 						core.HarnessError("C09: state reached by reload-based search differs from pure API replay; config %s; history %s", c, traceString(tr))
 					}
@@ -483,6 +485,9 @@ func buildConfigs(thorough bool) []*config {
 				add([]bool{N, N}, m.l, wsCombo{0, 0}, m.seq, md, 2_500_000)
 			}
 		}
+		// two peers over four pieces, sequential: the smallest setting in which the end-game path can be entered
+		// while two interior pieces are still missing
+		add([]bool{N, N}, l4a, wsCombo{0, 0}, true, 2, 1_200_000)
 		// every other two-peer configuration: breadth-first up to the cap
 		for _, cl := range [][]bool{{N, N}, {F, N}, {F, F}} {
 			for _, w := range ws3 {
